@@ -97,5 +97,20 @@ func specs() map[string]propSpec {
 		},
 		Components: realStub,
 	}
+	m["C19"] = propSpec{
+		ID: "C19",
+		Jobs: []job{
+			{Label: "model", Pkg: "./sim/engines/c19", Workers: [2]int{8, 10}, Checks: [2]int{0, 0}, Budget: [2]int{30, 600}},
+			{Label: "readers-race", Pkg: "./sim/engines/c19", Race: true, Workers: [2]int{6, 6}, Checks: [2]int{0, 0}, Budget: [2]int{30, 600}},
+		},
+		Rule: "a record is a history of up to 80 Set/Delete/At/Len/Keys/Iterate/String operations (plus reads of a nil map) over a universe of ~700 type objects built so that many are identical without being the same object (the same source checked twice, aliases, generic signatures with renamed type parameters, interfaces with permuted and embedded methods, unions with permuted terms, instantiations created twice) and so that a third of the keys come from families of non-identical types sharing a hash bucket (found by search over the public Hasher); " +
+			"bucket iteration order is tape-driven; Iterate is interleaved with a mutator acting at callback points chosen by the record; after the sequential phase 2-4 reader tasks run At/Len/Keys/Iterate/Hash under the baton scheduler with the race detector. " +
+			"Oracle: association-list reference model under types.Identical after every operation; the Go-map guarantees for iteration under mutation; the hash law on every identical pair of the universe. Non-trivial: >= 8 operations and >= 2 live entries; distinct = distinct (operation kinds, key classes, schedule).",
+		Assumptions: []string{
+			"the sequential container law has no environment of its own; what the simulator controls here is bucket order, iterator-vs-mutator interleaving and concurrent readers (DESIGN.md 3.5)",
+			"sampling: a clean run is evidence for the histories reached, not a proof",
+		},
+		Components: map[string][]string{"real_code": {"typeutil.Map and Hasher of the current tree (bucket iteration behind the map-order seam)", "go/types", "real goroutines and the Go race detector"}, "stubs": {"none"}},
+	}
 	return m
 }
